@@ -233,11 +233,15 @@ def check_c11(pid, tier, seed, replay):
         v.cov["forged_message_combos_distinct"] = len(forged)
         v.cov["forged_message_twins"] = sum(forged.values())
         v.cov["signed_valid_twins"] = sum(n for k, n in grid.items() if _valid_combo(k))
+        funded = sum(n for k, n in classes.items() if k.startswith("transfer-funded-by-claimed-rewards/"))
+        v.cov["transfer_funded_by_claimed_rewards_twins"] = funded
+        if funded < 4 and not v.violations:
+            raise Infra("the run executed only %d transfer() calls funded by the rewards they claim" % funded)
         relayed = sum(n for k, n in classes.items() if k.endswith("/relayed-by-contract-for-its-tx-origin"))
         v.cov["relayed_by_contract_for_its_tx_origin_twins"] = relayed
         if relayed < 8 and not v.violations:
             raise Infra("the run executed only %d signed messages relayed by a contract for their own tx origin" % relayed)
-        v.cov["distinct_nontrivial"] = sum(n for k, n in classes.items() if k.endswith("/ok")) + sum(forged.values())
+        v.cov["distinct_nontrivial"] = sum(n for k, n in classes.items() if k.endswith("/ok") and k.count("/") == 2) + sum(forged.values())
         v.cov["rule"] = ("twin pairs (precompile call on one clone, native messages on the other, same committed state) accepted by "
                          "TraceStakingCpc.tla; non-trivial = pairs whose call changed state (per method/via in classes) plus forged "
                          "signed-message pairs (must change nothing); counted by the trace specification")
